@@ -22,7 +22,7 @@ PROBE_SRC = '''
 def probe(c):
     from chartparse.instrument import Instrument, Difficulty
     return [[e.tick, (e.star_power_data.star_power_event_index if e.star_power_data is not None else None)]
-            for e in c[Instrument.GUITAR][Difficulty.EXPERT].note_events]
+            for e in next(t for dd in c.instrument_tracks.values() for t in dd.values()).note_events]  # the only track
 '''
 probe = None
 PHR = [(t, ln) for t in range(6) for ln in range(5)]
@@ -47,6 +47,7 @@ def plan(tier, seed):
                 if PHR[i][0] <= PHR[j][0]:
                     shards.append(("k3", i, j))
     shards += [("long", n) for n in (8, 12, 20, 40, 300)]
+    shards += [("headers", k) for k in range(8)]
     shards += [("big", bi, i) for bi in range(len(BASES)) for i in range(-1, len(PHR))]
     return dict(
         shards=shards,
@@ -111,6 +112,25 @@ def long_lists(n):
 
 def run_shard(shard, ctx):
     kind = shard[0]
+    if kind == "headers":
+        # "a track": every one of the 40 section headers, the 12-phrase lists with a note on every tick
+        from ..refmodel import TRACK_HEADERS
+
+        for header in list(TRACK_HEADERS)[shard[1] :: 8]:
+            for name, phr in long_lists(12):
+                last = max(t + ln for t, ln in phr) + 2
+                notes = list(range(last + 1))
+                expected = [[n, next((i for i, (t, ln) in enumerate(phr) if t <= n < t + ln), None)] for n in notes]
+                for pl in ("before", "merged"):
+                    body = body_for(phr, notes, pl)
+                    text = mk(tracks={header: body})
+                    got = e1.run_probe(probe, text)
+                    ctx.node()
+                    ctx.case(text, sample=lambda: dict(header=header, layout=name, phrases=len(phr), notes=len(notes)))
+                    ctx.evaluations += len(notes)
+                    if got != expected:
+                        e1.report(ctx, "membership", text, PROBE_SRC, [expected], got, "section [%s]: %d phrases (%s) %r, note ticks %r" % (header, len(phr), name, phr[:6], notes[:12]))
+        return
     if kind == "long":
         for name, phr in long_lists(shard[1]):
             last = max(t + ln for t, ln in phr) + 2
